@@ -765,6 +765,23 @@ fn exec_op(ctx: &mut Ctx, op: &Value, ev: &mut Map<String, Value>) {
     let i = op["i"].as_u64().unwrap_or(1);
     let name = op["op"].as_str().unwrap_or("");
     match name {
+        // the built-in type tables of the public API, and the three lookup functions on probe strings
+        "android" => {
+            use aidl_parser::ast::AndroidTypeKind as K;
+            let kinds = [K::IBinder, K::FileDescriptor, K::ParcelFileDescriptor, K::ParcelableHolder];
+            let table: Vec<Value> = kinds
+                .iter()
+                .map(|k| json!({"name": k.get_name(), "qname": k.get_qualified_name(), "canq": k.can_be_qualified(), "musti": k.must_be_imported()}))
+                .collect();
+            let nm = |k: Option<K>| match k { Some(k) => json!([k.get_name()]), None => json!([]) };
+            let mut probes = Vec::new();
+            for pr in op["probes"].as_array().cloned().unwrap_or_default() {
+                let t = pr.as_str().unwrap_or("");
+                probes.push(json!({"s": t, "type_name": nm(K::from_type_name(t)), "name": nm(K::from_name(t)), "qualified": nm(K::from_qualified_name(t))}));
+            }
+            ev.insert("table".into(), json!(table));
+            ev.insert("probes".into(), json!(probes));
+        }
         // test-only ops used by `./check selftest` to exercise the hang / abort plumbing of the driver
         "sleep" => {
             std::thread::sleep(std::time::Duration::from_millis(op["ms"].as_u64().unwrap_or(0)));
@@ -1115,7 +1132,7 @@ fn main() {
             ev.insert("ev".into(), json!(op["op"]));
             ev.insert("sid".into(), sid.clone());
             ev.insert("n".into(), json!(n));
-            for k in ["i", "id", "path", "mode", "filter", "pred", "preds", "positions", "stage", "m", "cid", "thread", "proc", "pieces", "garbage", "atoms"] {
+            for k in ["i", "id", "path", "mode", "filter", "pred", "preds", "positions", "stage", "m", "cid", "thread", "proc", "pieces", "garbage", "atoms", "probes"] {
                 if !op[k].is_null() {
                     ev.insert(k.into(), op[k].clone());
                 }
